@@ -125,11 +125,12 @@ def check_index(acc, lib, S, h, o, keys=None, prefix=True, area_sum=None):
             anchor.flips = (-orig[2][0], -orig[2][1])
             anchor.k = (orig[0] + 1) % 4 if isinstance(orig[0], int) else orig[0]
             a3 = hilbert.s_to_anchor(S, h, o)
+            got3 = (a3.k, tuple(a3.offset), tuple(a3.flips))          # read before this check's own copy is put back (a3 may BE that object)
             acc.n['repeated_after_caller_edit'] += 1
             # put this check's own copy back (it is used below for the distinctness key)
             anchor.k, anchor.offset, anchor.flips = orig[0], type_like(orig_types[0], orig[1]), type_like(orig_types[1], orig[2])
-            if (a3.k, tuple(a3.offset), tuple(a3.flips)) != orig:
-                acc.violation(k + ':anchor-shared', f's_to_anchor({S}, {h}, {o!r}) returns {(a3.k, tuple(a3.offset), tuple(a3.flips))} after the caller edited the anchor returned by the previous identical call (was {orig})', case)
+            if got3 != orig:
+                acc.violation(k + ':anchor-shared', f's_to_anchor({S}, {h}, {o!r}) returns {got3} after the caller edited the anchor returned by the previous identical call (was {orig})', case)
                 return
     except Exception as e:
         acc.violation(k + ':raises', f'raised {e!r}', case)
